@@ -1,11 +1,14 @@
 import PyElf.Driver.Json
 import PyElf.Spec.GnuVersions
+import PyElf.Spec.GnuVersionsImage
+import PyElf.Spec.ElfImageFast
 import PyElf.Model.ElfFile
 import PyElf.Model.GnuVersions
+import PyElf.Model.GnuVersionsFile
 import PyElf.Model.Env
 open Lean
 namespace PyElf.Driver.C15
-open PyElf PyElf.Spec PyElf.Model
+open PyElf PyElf.Spec PyElf.Spec.C15 PyElf.Model PyElf.Model.C15
 
 /-! ### JSON ⇄ abstract contents -/
 
@@ -38,6 +41,34 @@ def symOf (j : Json) : Except String Sym := do
 
 def rowOf (j : Json) : Except String (Sym × VersymRow) := do
   pure (← symOf (← j.getObjVal? "sym"), { ndx := ← jNat j "ndx", symName := ← jHex j "symName" })
+
+/-! ### JSON → abstract ELF image (same shape as C01's `ast`) -/
+
+def fieldsOf (j : Json) : Except String Fields := do
+  match ← Val.ofJson j with
+  | .record fs => pure fs
+  | _ => throw "expected a record"
+
+def descOfJson (j : Json) : Except String ElfDesc := do
+  let secs ← (← jArr j "sections").mapM fun s => do
+    let body ← match s.getObjVal? "body" with
+      | .ok (Json.str h) => match Bytes.ofHex h with
+          | some b => pure (some b)
+          | none => throw "bad body hex"
+      | _ => pure none
+    pure ({ name := ← jHex s "name", hdr := ← fieldsOf (← s.getObjVal? "hdr"), body := body,
+            nameOff := ← jNat s "nameOff" } : SecDesc)
+  let segs ← (← jArr j "segments").mapM fieldsOf
+  pure { cls := ← jNat j "cls", le := ← jBool j "le", mclass := ← jStr j "mclass",
+         solaris := ← jBool j "solaris", core := ← jBool j "core",
+         ehdr := ← fieldsOf (← j.getObjVal? "ehdr"),
+         shoff := ← jNat j "shoff", phoff := ← jNat j "phoff",
+         shentsize := ← jNat j "shentsize", phentsize := ← jNat j "phentsize",
+         sections := secs, segments := segs, shstrndx := ← jNat j "shstrndx" }
+
+def optNat : Option Nat → Json
+  | some n => jN n
+  | none => Json.null
 
 /-! ### observations → JSON (one canonical shape for spec, model and implementation) -/
 
@@ -79,6 +110,50 @@ def expectDef (es : List DefEntry) (queries : List Nat) : Json :=
     ("carriers", Json.arr (queries.map fun q =>
       Json.arr ((es.filter fun e => e.r.ndx == q).map fun e => defHitJson (some (e.r.obs, e.auxs.map DefAux.obs))).toArray).toArray)]
 
+def errJ (e : Err) : Json := Json.mkObj [("err", Json.str e.name)]
+
+/-- the declared count exceeds the chain and the walk is sent out of the file (`need_truncated`) -/
+def expectNeedTrunc (declared : Nat) (es : List NeedEntry) (queries : List Nat) : Json :=
+  Json.mkObj [
+    ("num", okJ (jN declared)),
+    ("versions", errJ .elfParseError),
+    ("has_indexes", errJ .elfParseError),
+    ("get", Json.arr (queries.map fun q =>
+      match needFind q es with
+      | some (e, a) => okJ (needHitJson (some (e.r.obs, some e.file, a.r.obs, a.name)))
+      | none => errJ .elfParseError).toArray),
+    ("carriers", Json.arr (queries.map fun q =>
+      Json.arr ((needCarriers q es).map fun (e, a) => needHitJson (some (e.r.obs, some e.file, a.r.obs, a.name))).toArray).toArray)]
+
+def expectDefTrunc (declared : Nat) (es : List DefEntry) (queries : List Nat) : Json :=
+  Json.mkObj [
+    ("num", okJ (jN declared)),
+    ("versions", errJ .elfParseError),
+    ("get", Json.arr (queries.map fun q =>
+      match defFind q es with
+      | some e => okJ (defHitJson (some (e.r.obs, e.auxs.map DefAux.obs)))
+      | none => errJ .elfParseError).toArray),
+    ("carriers", Json.arr (queries.map fun q =>
+      Json.arr ((es.filter fun e => e.r.ndx == q).map fun e => defHitJson (some (e.r.obs, e.auxs.map DefAux.obs))).toArray).toArray)]
+
+/-- the last entry's count exceeds its auxiliary chain, which leaves the file (`need_aux_truncated`):
+    only the enumeration as a whole is determined -/
+def expectAuxTrunc (declared : Nat) : Json :=
+  Json.mkObj [("num", okJ (jN declared)), ("versions", errJ .elfParseError)]
+
+/-- … and, for requirements, `get_version` (`need_aux_truncated_get`): `es` are the complete entries and the
+    partial one, whose `auxs` are the chained auxiliaries -/
+def expectNeedAuxTrunc (declared : Nat) (es : List NeedEntry) (queries : List Nat) : Json :=
+  Json.mkObj [
+    ("num", okJ (jN declared)),
+    ("versions", errJ .elfParseError),
+    ("get", Json.arr (queries.map fun q =>
+      match needFind q es with
+      | some (e, a) => okJ (needHitJson (some (e.r.obs, some e.file, a.r.obs, a.name)))
+      | none => errJ .elfParseError).toArray),
+    ("carriers", Json.arr (queries.map fun q =>
+      Json.arr ((needCarriers q es).map fun (e, a) => needHitJson (some (e.r.obs, some e.file, a.r.obs, a.name))).toArray).toArray)]
+
 def expectVersym (rows : List VersymRow) (queries : List Nat) : Json :=
   Json.mkObj [
     ("num", okJ (jN rows.length)),
@@ -90,42 +165,41 @@ def expectVersym (rows : List VersymRow) (queries : List Nat) : Json :=
 
 /-! ### the model, from the file bytes -/
 
-def linkedHeader (f : ElfFile) (n : Nat) : R Val := do
-  match ← getSectionHeader elfEnv f.S f.data f.header n with
-  | some h => pure h
-  | none => throw .typeError
-
-def modelObserve (data : Bytes) (sec : Nat) (queries : List Nat) : R Json := do
-  let f ← openElf elfEnv elfStructsFor machineClassOf data
-  let (kind, _, sh) ← getSection elfEnv f.S data f.header f.shstr sec
-  if kind == "GNUVerNeedSection" || kind == "GNUVerDefSection" then
-    let need := kind == "GNUVerNeedSection"
-    let st ← linkedHeader f (← sh.getNat "sh_link")
-    let mk := if need then VerSec.mkNeed else VerSec.mkDef
-    let vs : VerSec := mk f.S data (← sh.getNat "sh_offset") (← sh.getNat "sh_info") (← st.getNat "sh_offset")
-    let common : List (String × Json) := [
-      ("kind", Json.str kind),
+/-- everything the harness observes of a section object (`Model.C15.getVerSection` mirrors how
+    `ELFFile.get_section` builds it) -/
+def observeObj (obj : VerObj) (queries : List Nat) : Json :=
+  match obj with
+  | .need vs =>
+    Json.mkObj [
+      ("kind", Json.str "GNUVerNeedSection"),
       ("num", okJ (jN vs.numVersions)),
-      ("versions", resJson (fun l => Json.arr (l.map verJson).toArray) (vs.versions elfEnv))]
-    if need then
-      return Json.mkObj (common ++ [
-        ("has_indexes", resJson Json.bool (vs.hasIndexes elfEnv)),
-        ("get", Json.arr (queries.map fun q => resJson needHitJson (vs.needGetVersion elfEnv q)).toArray)])
-    else
-      return Json.mkObj (common ++ [
-        ("get", Json.arr (queries.map fun q => resJson defHitJson (vs.defGetVersion elfEnv q)).toArray)])
-  else if kind == "GNUVerSymSection" then
-    let symh ← linkedHeader f (← sh.getNat "sh_link")
-    let strh ← linkedHeader f (← symh.getNat "sh_link")
-    let v : VersymSec := VersymSec.mk' f.S data (← sh.getNat "sh_offset") (← sh.getNat "sh_size")
-      (← sh.getNat "sh_entsize") (← symh.getNat "sh_offset") (← symh.getNat "sh_entsize") (← strh.getNat "sh_offset")
-    return Json.mkObj [
-      ("kind", Json.str kind),
+      ("versions", resJson (fun l => Json.arr (l.map verJson).toArray) (vs.versions elfEnv)),
+      ("has_indexes", resJson Json.bool (vs.hasIndexes elfEnv)),
+      ("get", Json.arr (queries.map fun q => resJson needHitJson (vs.needGetVersion elfEnv q)).toArray)]
+  | .def_ vs =>
+    Json.mkObj [
+      ("kind", Json.str "GNUVerDefSection"),
+      ("num", okJ (jN vs.numVersions)),
+      ("versions", resJson (fun l => Json.arr (l.map verJson).toArray) (vs.versions elfEnv)),
+      ("get", Json.arr (queries.map fun q => resJson defHitJson (vs.defGetVersion elfEnv q)).toArray)]
+  | .versym v =>
+    Json.mkObj [
+      ("kind", Json.str "GNUVerSymSection"),
       ("num", resJson jN v.numSymbols),
       ("symbols", resJson (fun l => Json.arr (l.map symJson).toArray) (v.symbols elfEnv)),
       ("get", Json.arr (queries.map fun q => resJson symJson (v.getSymbol elfEnv q)).toArray)]
-  else
-    return Json.mkObj [("kind", Json.str kind)]
+  | .other kind => Json.mkObj [("kind", Json.str kind)]
+
+def modelObserve (data : Bytes) (sec : Nat) (queries : List Nat) : R Json := do
+  let f ← openElf elfEnv elfStructsFor machineClassOf data
+  return observeObj (← getVerSection elfEnv f sec) queries
+
+/-- `ELFFile(...).get_section_by_name(name)` on a fresh file object, observed the same way -/
+def modelObserveByName (data : Bytes) (name : Bytes) (queries : List Nat) : R Json := do
+  let f ← openElf elfEnv elfStructsFor machineClassOf data
+  match ← getVerSectionByName elfEnv f name with
+  | some obj => return observeObj obj queries
+  | none => return Json.mkObj [("kind", Json.null)]
 
 def queriesOf (req : Json) : Except String (List Nat) := do
   match req.getObjVal? "queries" with
@@ -168,15 +242,44 @@ def handle (req : Json) : Except String Json := do
     let queries ← queriesOf req
     let model := resJson id (modelObserve data sec queries)
     let small := decide (data.length < 2 ^ 63)
+    -- "trunc": the hypotheses of `need_truncated` / `def_truncated`; "auxtrunc": of `need_aux_truncated` /
+    -- `def_aux_truncated` (the last entry is the partial one); otherwise of the `_exact` theorems
+    let mode := (jStr req "mode").toOption.getD "exact"
     match kind with
     | "need" =>
       let es ← (← jArr ast "entries").mapM needEntryOf
-      let wf := needLayout le data (← jNat req "strOff") off es && (← jNat req "shInfo") == es.length && small
-      return Json.mkObj [("wf", Json.bool wf), ("expect", okJ (expectNeed es queries)), ("model", model)]
+      let strOff ← jNat req "strOff"
+      let shInfo ← jNat req "shInfo"
+      if mode == "trunc" then
+        let wf := needTruncated le data strOff off es shInfo && small
+        return Json.mkObj [("wf", Json.bool wf), ("expect", okJ (expectNeedTrunc shInfo es queries)), ("model", model)]
+      else if mode == "auxtrunc" then
+        let wf := match es.getLast? with
+          | some e => needLayout le data strOff off es.dropLast &&
+              NeedEntry.atPartial le data strOff (chainEnd (fun e : NeedEntry => e.r.next) off es.dropLast) e &&
+              decide (es.dropLast.length < shInfo) && small
+          | none => false
+        return Json.mkObj [("wf", Json.bool wf), ("expect", okJ (expectNeedAuxTrunc shInfo es queries)), ("model", model)]
+      else
+        let wf := needLayout le data strOff off es && shInfo == es.length && small
+        return Json.mkObj [("wf", Json.bool wf), ("expect", okJ (expectNeed es queries)), ("model", model)]
     | "def" =>
       let es ← (← jArr ast "entries").mapM defEntryOf
-      let wf := defLayout le data (← jNat req "strOff") off es && (← jNat req "shInfo") == es.length && small
-      return Json.mkObj [("wf", Json.bool wf), ("expect", okJ (expectDef es queries)), ("model", model)]
+      let strOff ← jNat req "strOff"
+      let shInfo ← jNat req "shInfo"
+      if mode == "trunc" then
+        let wf := defTruncated le data strOff off es shInfo && small
+        return Json.mkObj [("wf", Json.bool wf), ("expect", okJ (expectDefTrunc shInfo es queries)), ("model", model)]
+      else if mode == "auxtrunc" then
+        let wf := match es.getLast? with
+          | some e => defLayout le data strOff off es.dropLast &&
+              DefEntry.atPartial le data strOff (chainEnd (fun e : DefEntry => e.r.next) off es.dropLast) e &&
+              decide (es.dropLast.length < shInfo) && small
+          | none => false
+        return Json.mkObj [("wf", Json.bool wf), ("expect", okJ (expectAuxTrunc shInfo)), ("model", model)]
+      else
+        let wf := defLayout le data strOff off es && shInfo == es.length && small
+        return Json.mkObj [("wf", Json.bool wf), ("expect", okJ (expectDef es queries)), ("model", model)]
     | "versym" =>
       let rows ← (← jArr ast "rows").mapM rowOf
       let cls ← jNat ast "cls"
@@ -186,6 +289,49 @@ def handle (req : Json) : Except String Json := do
         && decide (0 < es) && (← jNat req "shSize") / es == rows.length && small
       return Json.mkObj [("wf", Json.bool wf), ("expect", okJ (expectVersym (rows.map (·.2)) queries)), ("model", model)]
     | _ => throw s!"C15 check: unknown kind {kind}"
+  | "file" =>
+    -- a whole abstract image (C01's `ElfDesc`) one of whose sections is the assembled version section:
+    -- bytes by the Spec assemblers, wf = the Spec's well-formedness of the DESCRIPTION (no layout
+    -- predicate is evaluated on the bytes), expectation, model by index and by name
+    let d ← descOfJson (← req.getObjVal? "desc")
+    let ast ← req.getObjVal? "ast"
+    let kind ← jStr ast "kind"
+    let fill := byteOf ast "fill"
+    let sec ← jNat req "sec"
+    let tail := (jNat req "tail").toOption.getD 0
+    let queries ← queriesOf req
+    let names ← (← jArr req "names").mapM fun q => match q with
+      | Json.str h => match Bytes.ofHex h with
+          | some b => pure b
+          | none => throw "bad name hex"
+      | _ => throw "bad name"
+    match d.assembleFast tail with
+    | none => return Json.mkObj [("wf", Json.bool false), ("why", "not encodable")]
+    | some bytes =>
+      let fits := imageFits d tail
+      let model := resJson id (modelObserve bytes sec queries)
+      let byName := Json.arr (names.map fun nm => resJson id (modelObserveByName bytes nm queries)).toArray
+      let idx := Json.arr (names.map fun nm => optNat (d.indexOfName nm)).toArray
+      let common : List (String × Json) := [("bytes", jHexOf bytes), ("model", model), ("modelByName", byName),
+        ("indexOfName", idx), ("observable", Json.bool (observable elfEnv d))]
+      match kind with
+      | "need" =>
+        let es ← (← jArr ast "entries").mapM needEntryOf
+        let declared ← jNat req "declared"
+        let wf := needFileWf elfEnv d sec fill (← jNat ast "size") es declared && fits
+        return Json.mkObj (common ++ [("wf", Json.bool wf), ("expect", okJ (expectNeed (es.take declared) queries))])
+      | "def" =>
+        let es ← (← jArr ast "entries").mapM defEntryOf
+        let declared ← jNat req "declared"
+        let wf := defFileWf elfEnv d sec fill (← jNat ast "size") es declared && fits
+        return Json.mkObj (common ++ [("wf", Json.bool wf), ("expect", okJ (expectDef (es.take declared) queries))])
+      | "versym" =>
+        let rows ← (← jArr ast "rows").mapM rowOf
+        let slack ← jHex req "slack"
+        let more ← jHex req "moreSyms"
+        let wf := versymFileWf elfEnv d sec fill rows slack more && fits
+        return Json.mkObj (common ++ [("wf", Json.bool wf), ("expect", okJ (expectVersym (rows.map (·.2)) queries))])
+      | _ => throw s!"C15 file: unknown kind {kind}"
   | "raw" =>
     let data ← jHex req "hex"
     let sec ← jNat req "sec"
